@@ -529,9 +529,9 @@ class simplify_chained_calls(FuncADLNodeTransformer):
         return found if found is not None else ast.Subscript(v, s, ast.Load())
 
     def visit_Subscript_Dict_with_value(self, v: ast.Dict, s: Union[str, int]):
-        """Do the lookup for the dict. Returns `None` if the key is not there (or we can't tell
-        because some key is not a constant)"""
-        for index, value in enumerate(v.keys):
+        """Do the lookup for the dict: the last entry for a key is the one python keeps. Returns
+        `None` if the key is not there (or we can't tell because some key is not a constant)"""
+        for index, value in reversed(list(enumerate(v.keys))):
             if not isinstance(value, ast.Constant):
                 return None
             if value.value == s:
